@@ -350,9 +350,13 @@ func floatFloatSweep[S, D constraints.Float](w *numWriter, rng *rand.Rand, sty, 
 }
 
 // ---- C16 --------------------------------------------------------------------------------------------
-func depthSweep(ws []*numWriter, rng *rand.Rand, nrand int, full bool) {
+// depthSweepPart records the depths b with b % of == part (and the Scale table when withScale).
+func depthSweepPart(ws []*numWriter, rng *rand.Rand, nrand int, full bool, part, of int, withScale bool) {
 	for b := 1; b <= 64; b++ {
-		w := ws[b%len(ws)]
+		if b%of != part {
+			continue
+		}
+		w := ws[0]
 		w.start(&NEvent{Fam: "depth", Fn: "BitDepth", B: b})
 		bd := signal.BitDepth(b)
 		w.emit(&NEvent{Op: "MaxS", B: b, Y: numOfI64(bd.MaxSignedValue())})
@@ -375,9 +379,11 @@ func depthSweep(ws []*numWriter, rng *rand.Rand, nrand int, full bool) {
 			w.emit(&NEvent{Op: "ClipU", B: b, X: numOfU64(x), Y: numOfU64(y), Z: numOfU64(bd.UnsignedValue(y))})
 		}
 	}
-	w := ws[0]
-	w.start(&NEvent{Fam: "depth", Fn: "Scale"})
-	scaleAll(w)
+	if withScale {
+		w := ws[0]
+		w.start(&NEvent{Fam: "depth", Fn: "Scale"})
+		scaleAll(w)
+	}
 }
 
 func scaleOne[T constraints.Integer](w *numWriter, ty string) {
